@@ -71,6 +71,16 @@ Fn(name) ==
     [] name = "isbool" -> Fun("M3", <<"x">>, InstOf(X, "xs:boolean"))                    \* a boolean key
     [] name = "tag" -> Fun("M4", <<"x">>, If(InstOf(X, "xs:integer"), Lit(1), If(InstOf(X, "xs:decimal"), Lit(2),
                                              If(InstOf(X, "xs:double"), Lit(3), Lit(4)))))
+    (* maps and arrays used AS FUNCTIONS (3.1) *)
+    [] name = "arr3" -> Arr(<<Lit(10), Lit(20), Lit(30)>>)
+    [] name = "map3" -> MapLit(<<1, 2, 3>>, <<Lit(10), Lit(20), Lit(30)>>)
+    [] name = "mapb" -> MapLit(<<1, 2, 3>>, <<BLit(TRUE), BLit(FALSE), BLit(TRUE)>>)
+    (* keys that are EQUAL for distinguishable items: NaN, -0e0 / 0e0, the empty sequence, 1 / 1e0 *)
+    [] name = "number1" -> Ref("number", 1)
+    [] name = "nankey" -> Fun("T1", <<"x">>, NaNLit)
+    [] name = "zerokey" -> Fun("T2", <<"x">>, If(Op("eq", SCall("S5", "string-length", <<X>>), Lit(1)), NZLit, DLit(0)))
+    [] name = "emptykey" -> Fun("T3", <<"x">>, Nil)
+    [] name = "xtype" -> Fun("T4", <<"x">>, If(Op("eq", SCall("S6", "string-length", <<X>>), Lit(1)), Lit(1), DLit(1)))
     (* keys for the collation machine *)
     [] name = "ident" -> Fun("C1", <<"x">>, X)
     [] name = "string1" -> Ref("string", 1)
@@ -79,24 +89,26 @@ Fn(name) ==
     [] name = "f3" -> Fun("A3", <<"a", "b", "c">>, Op("+", Op("*", Op("+", Op("*", A, Lit(10)), Bv), Lit(10)), Var("c")))
     [] name = "concat3" -> Ref("concat", 3)
 
-Unary == {"dbl", "addk", "dup", "abs", "nestfold"} \cup (IF Big THEN {"drop", "nesteach", "p7", "powp"} ELSE {})
-Preds == {"odd", "ltk"} \cup (IF Big THEN {"any", "ltp"} ELSE {})
+Unary == {"dbl", "addk", "dup", "abs", "nestfold"} \cup (IF Big THEN {"drop", "nesteach", "p7", "powp", "arr3", "map3"} ELSE {})
+Preds == {"odd", "ltk"} \cup (IF Big THEN {"any", "ltp", "mapb"} ELSE {})
 NumBinary == {"sub", "shift"} \cup (IF Big THEN {"subk"} ELSE {})
 SeqBinary == {"snoc", "cons"}
+FoldNamed == {"concat2"}                  \* a NAMED function reference as the fold function (string result: terminal)
 Binary == NumBinary \cup SeqBinary
 PairOnly == {"pow", "concat2"}
 Keys == {"none", "negate", "mod2", "abs"} \cup (IF Big THEN {"const", "modk"} ELSE {})
 Zeros == {"0", "empty", "5", "pair"}
 ZeroExpr(z) == CASE z = "0" -> Lit(0) [] z = "empty" -> Nil [] z = "5" -> Lit(5) [] z = "pair" -> Lits(<<5, 6>>)
 Others == {<<>>, <<5>>, <<2, 0>>, <<1, 2, 3>>, <<3, 1, 2, 0>>}
-ByArity(k) == CASE k = 0 -> {"k7"} [] k = 1 -> {"dbl", "abs"} [] k = 2 -> {"sub", "pow"}
+ByArity(k) == CASE k = 0 -> {"k7"} [] k = 1 -> {"dbl", "abs", "arr3", "map3"} [] k = 2 -> {"sub", "pow"}
                 [] k = 3 -> {"f3", "concat3"} [] OTHER -> {}
 
 AllNames == Unary \cup Preds \cup Binary \cup PairOnly \cup Keys \cup {"k7", "f3", "concat3"}
 (* the function items of the catalog, evaluated once (a constant: TLC caches it) *)
 Names == {"dbl", "addk", "dup", "drop", "abs", "nestfold", "nesteach", "p7", "powp", "odd", "ltk", "any", "ltp",
           "sub", "shift", "snoc", "cons", "subk", "pow", "concat2", "negate", "mod2", "const", "modk",
-          "k7", "f3", "concat3", "str", "isint", "isbool", "tag", "ident", "string1"}
+          "k7", "f3", "concat3", "str", "isint", "isbool", "tag", "ident", "string1",
+          "arr3", "map3", "mapb", "number1", "nankey", "zerokey", "emptykey", "xtype"}
 FV == [name \in Names |-> Eval(Fn(name), EmptyEnv)[1]]
 FnVal(name) == FV[name]
 Ints(ns) == [j \in 1..Len(ns) |-> I(ns[j])]
@@ -109,21 +121,25 @@ NonNeg(v) == \A j \in 1..Len(v) : v[j].i >= 0 /\ v[j].i <= 3
 
 Init == acc \in UNION {[1..k -> {I(u) : u \in Universe}] : k \in 0..MaxLen}
 
+InRange(v) == \A j \in 1..Len(v) : v[j].i \in 1..3       \* valid indices of arr3 / keys of mapb
 ForEachA(f) == /\ Deeper /\ Usable(acc) /\ f \in Unary
+               /\ (f = "arr3" => InRange(acc))
                /\ acc' = ForEach(acc, FnVal(f))
 FilterA(p) == /\ Deeper /\ Usable(acc) /\ p \in Preds
+              /\ (p = "mapb" => InRange(acc))
               /\ acc' = Filter(acc, FnVal(p))
-FoldLeftA(z, f) == /\ Deeper /\ Usable(acc) /\ f \in Binary /\ z \in Zeros
-                   /\ (f \in NumBinary => z \notin {"empty", "pair"})
+FoldLeftA(z, f) == /\ Deeper /\ Usable(acc) /\ f \in Binary \cup FoldNamed /\ z \in Zeros
+                   /\ (f \in NumBinary => z \notin {"empty", "pair"}) /\ (f \in FoldNamed => z # "pair")
                    /\ acc' = FoldL(acc, Eval(ZeroExpr(z), EmptyEnv), FnVal(f))
-FoldRightA(z, f) == /\ Deeper /\ Usable(acc) /\ f \in Binary /\ z \in Zeros
-                    /\ (f \in NumBinary => z \notin {"empty", "pair"})
+FoldRightA(z, f) == /\ Deeper /\ Usable(acc) /\ f \in Binary \cup FoldNamed /\ z \in Zeros
+                    /\ (f \in NumBinary => z \notin {"empty", "pair"}) /\ (f \in FoldNamed => z # "pair")
                     /\ acc' = FoldR(acc, Eval(ZeroExpr(z), EmptyEnv), FnVal(f))
 PairA(o, f) == /\ Deeper /\ Usable(acc) /\ o \in Others /\ f \in Binary \cup PairOnly
                /\ (f = "pow" => NonNeg(Ints(o)) /\ \A j \in 1..Len(acc) : AbsI(acc[j].i) <= 5)
                /\ acc' = ForEachPair(acc, Ints(o), FnVal(f))
 ApplyA(f) == /\ Deeper /\ Usable(acc) /\ f \in ByArity(Len(acc))
              /\ (f = "pow" => NonNeg(<<acc[2]>>) /\ AbsI(acc[1].i) <= 5)
+             /\ (f = "arr3" => InRange(acc))
              /\ acc' = Apply(FnVal(f), [j \in 1..Len(acc) |-> <<acc[j]>>])
 SortA(key) == /\ Deeper /\ Usable(acc) /\ key \in Keys
               /\ acc' = SortBy(acc, IF key = "none" THEN NoKey ELSE FnVal(key))
@@ -143,12 +159,12 @@ Spec == Init /\ [][Next]_vars
 Ap1(f, x) == Apply(FnVal(f), << <<x>> >>)
 Ap2(f, a, b) == Apply(FnVal(f), <<a, b>>)
 Zv(z) == Eval(ZeroExpr(z), EmptyEnv)
-OkZero(z, f) == f \in NumBinary => z \notin {"empty", "pair"}
+OkZero(z, f) == (f \in NumBinary => z \notin {"empty", "pair"}) /\ (f \in FoldNamed => z # "pair")
 Short == Usable(acc) /\ Len(acc) <= 3
 
 (* fold-left(S, z, f) = f(f(f(z, s1), s2), s3);  fold-right(S, z, f) = f(s1, f(s2, f(s3, z))) *)
 LawFoldUnrolled ==
-  Short => \A f \in Binary, z \in Zeros : OkZero(z, f) =>
+  Short => \A f \in Binary \cup FoldNamed, z \in Zeros : OkZero(z, f) =>
     LET n == Len(acc)
         s(j) == <<acc[j]>>
         l1 == Ap2(f, Zv(z), s(1))
@@ -164,8 +180,9 @@ LawMapFilter ==
   (Usable(acc) /\ Len(acc) <= 4) => \A q \in 0..Len(acc) :
     LET s1 == SubSeq(acc, 1, q)
         s2 == SubSeq(acc, q + 1, Len(acc)) IN
-    /\ \A f \in Unary : ForEach(acc, FnVal(f)) = ForEach(s1, FnVal(f)) \o ForEach(s2, FnVal(f))
-    /\ \A p \in Preds :
+    /\ \A f \in Unary : (f = "arr3" => InRange(acc)) =>
+                            ForEach(acc, FnVal(f)) = ForEach(s1, FnVal(f)) \o ForEach(s2, FnVal(f))
+    /\ \A p \in Preds : (p = "mapb" => InRange(acc)) =>
          /\ Filter(acc, FnVal(p)) = Filter(s1, FnVal(p)) \o Filter(s2, FnVal(p))
          /\ Len(Filter(acc, FnVal(p))) = Cardinality({j \in 1..Len(acc) : EBV(Ap1(p, acc[j]))})
          /\ \A j \in 1..Len(Filter(acc, FnVal(p))) : EBV(Ap1(p, Filter(acc, FnVal(p))[j]))
@@ -263,10 +280,39 @@ LawsColl ==
     /\ (coll = "none" => r = SortC(acc, key, "cp"))          \* the default collation is the codepoint collation
     /\ (coll = "ci" => \A i \in 1..(Len(r) - 1) : CiRank(r[i].s) <= CiRank(r[i + 1].s))
 
+---------------------------------------------------------------------------
+(* FOURTH MACHINE (SpecTies): stability of fn:sort on TIES: distinguishable items ("x", "y", "9", "10") *)
+(* whose keys are equal: NaN (number#1 of a non-numeric string; NaN keys are equal to each other and    *)
+(* sort first), -0e0 / 0e0, the empty sequence, 1 / 1e0.  Items with equal keys keep their input order. *)
+TieItems == {S("x"), S("y"), S("9"), S("10")}
+TieKeys == {"number1", "nankey", "zerokey", "emptykey", "xtype"}
+InitTies == acc \in UNION {[1..k -> TieItems] : k \in 0..MaxLen}
+SortTiesA(key) == /\ Deeper /\ key \in TieKeys
+                  /\ acc' = SortBy(acc, FnVal(key))
+NextTies == \E key \in Names : SortTiesA(key)
+SpecTies == InitTies /\ [][NextTies]_vars
+LawsTies ==
+  /\ Len(acc) <= 4 => \A key \in TieKeys :
+       LET ps == {p \in Permutations(1..Len(acc)) : IsSortPerm(p, key)}
+           r == SortBy(acc, FnVal(key)) IN
+       /\ Cardinality(ps) = 1
+       /\ \A p \in ps : r = [i \in 1..Len(acc) |-> acc[p[i]]]
+       /\ (key \in {"nankey", "zerokey", "emptykey", "xtype"} => r = acc)      \* every key equal: nothing moves
+       /\ SortBy(r, FnVal(key)) = r                                          \* idempotent
+  /\ Ap1("number1", S("x")) = <<[nan |-> TRUE]>> /\ Ap1("number1", S("10")) = <<D(10)>>
+  /\ KeyVal(Ap1("number1", S("y"))) = KeyVal(Ap1("number1", S("x")))          \* NaN keys are equal
+  /\ KeyVal(Ap1("number1", S("x"))) < KeyVal(Ap1("number1", S("9")))          \* and sort first
+(* a higher-order function called AS A FUNCTION ITEM (name#n, also through fn:apply) is the function *)
+LawHofItems ==
+  Short => \A f \in Binary \cup FoldNamed, z \in Zeros : OkZero(z, f) =>
+    /\ Apply(Eval(Ref("fold-left", 3), EmptyEnv)[1], <<acc, Zv(z), <<FnVal(f)>> >>) = FoldL(acc, Zv(z), FnVal(f))
+    /\ ApplyNamed("apply", << Eval(Ref("fold-right", 3), EmptyEnv),
+                              <<[arr |-> <<acc, Zv(z), <<FnVal(f)>> >>]>> >>) = FoldR(acc, Zv(z), FnVal(f))
+
 (* apply($f, [a, b, ..]) = $f(a, b, ..) *)
 LawApply ==
   Usable(acc) => \A f \in ByArity(Len(acc)) :
-    (f # "pow" \/ (NonNeg(<<acc[2]>>) /\ AbsI(acc[1].i) <= 5)) =>
+((f # "pow" \/ (NonNeg(<<acc[2]>>) /\ AbsI(acc[1].i) <= 5)) /\ (f = "arr3" => InRange(acc))) =>
       ApplyNamed("apply", << <<FnVal(f)>>, <<[arr |-> [j \in 1..Len(acc) |-> <<acc[j]>>]]>> >>)
         = Apply(FnVal(f), [j \in 1..Len(acc) |-> <<acc[j]>>])
 (* a partial application / a closure is the function it stands for *)
@@ -274,12 +320,14 @@ LawCatalog ==
   /\ \A u \in Universe : Ap1("p7", I(u)) = <<I(70 + u)>> /\ Ap1("addk", I(u)) = <<I(u + 10)>>
   /\ \A u \in Universe : Ap1("nestfold", I(u)) = <<I((u * 1 + u) * 2 + u)>>
   /\ \A u \in Universe : Ap1("nesteach", I(u)) = <<I(10 + u)>>
-Laws == LawFoldUnrolled /\ LawMapFilter /\ LawPair /\ LawSort /\ LawApply /\ LawCatalog
+Laws == LawFoldUnrolled /\ LawMapFilter /\ LawPair /\ LawSort /\ LawApply /\ LawCatalog /\ LawHofItems
 
 (* printed once for the binding: the catalog (expression + structural class) and the zero operands *)
+V31(name) == name \in {"arr3", "map3", "mapb"}
 Collides(name) == name = "nesteach"          \* the inner function binds a name the outer body reads afterwards
 Nested(name) == name \in {"nestfold", "nesteach"}
-Catalog == [name \in Names |-> [e |-> Fn(name), collision |-> Collides(name), nested |-> Nested(name)]]
+Catalog == [name \in Names |-> [e |-> Fn(name), collision |-> Collides(name), nested |-> Nested(name),
+                                arity |-> Arity(FV[name]), v31 |-> V31(name)]]
 ASSUME PrintT(<<"catalog", Catalog>>)
 ASSUME PrintT(<<"zeros", [z \in Zeros |-> ZeroExpr(z)]>>)
 =============================================================================
